@@ -62,7 +62,9 @@ class DensityMatrixEvolution(MatrixData, BasisManaged, Saveable):
 
         ti, dt = self.TimeAxis.locate(time)
 
-        return DensityMatrix(data=self.data[ti, :, :])
+        # a copy: a view would share its array with the evolution, and
+        # both objects are transformed when a basis context is left
+        return DensityMatrix(data=self.data[ti, :, :].copy())
 
 
     def transform(self, SS, inv=None):
@@ -315,5 +317,7 @@ class ReducedDensityMatrixEvolution(DensityMatrixEvolution):
 
         ti, dt = self.TimeAxis.locate(time)
 
-        return ReducedDensityMatrix(data=self.data[ti, :, :])
+        # a copy: a view would share its array with the evolution, and
+        # both objects are transformed when a basis context is left
+        return ReducedDensityMatrix(data=self.data[ti, :, :].copy())
 
